@@ -90,6 +90,30 @@ func c21Walk(c *core.Case, r *core.Run, name string, list func(cursor string) (*
 	if len(pages) > 0 && pages[0].previous != "" {
 		c.Violation("C21/first-page-has-a-previous-cursor:"+name, map[string]any{"shape": shape})
 	}
+	// backward chain: from the last page follow `previous` of each page obtained THROUGH previous, down to the first
+	if len(pages) >= 2 {
+		cur := pages[len(pages)-1]
+		for k := len(pages) - 2; k >= 0; k-- {
+			if cur.previous == "" {
+				c.Violation("C21/backward-chain-ends-before-the-first-page:"+name, map[string]any{"shape": shape, "stopped_before_page": k})
+				return
+			}
+			p, err := list(cur.previous)
+			if err != nil {
+				c.Violation("C21/previous-cursor-failed:"+name, map[string]any{"shape": shape, "error": err.Error()})
+				return
+			}
+			r.Count("previous_cursors_followed", 1)
+			if strings.Join(p.keys, "|") != strings.Join(pages[k].keys, "|") {
+				c.Violation("C21/backward-chain-page-differs-from-forward-page:"+name, map[string]any{"shape": shape, "page": k, "got": p.keys, "want": pages[k].keys, "pageSize": pageSize, "hops": len(pages) - 1 - k})
+				return
+			}
+			cur = p
+		}
+		if cur.previous != "" {
+			c.Violation("C21/first-page-reached-backwards-has-a-previous-cursor:"+name, map[string]any{"shape": shape})
+		}
+	}
 	// backward: from page k (k>=1) previous must be page k-1
 	for k := len(pages) - 1; k >= 1; k-- {
 		if pages[k].previous == "" {
@@ -127,6 +151,23 @@ func pageOf[T any](cur *paginate.Cursor[T], key func(T) string) *c21Page {
 func runC21(r *core.Run) {
 	n := r.N(600, 12000)
 	r.Floor("walks", int64(n))
+	{
+		// process-level warm-up: the FIRST listing this process serves for a resource is on another
+		// sort column (odd seeds) or on the id column (even seeds); later walks must not depend on it
+		e := sim.NewEnv(sim.Options{})
+		_ = e.CreateLedger("l1", "_default", nil)
+		for i := 0; i < 5; i++ {
+			e.Apply("l1", sim.Op{Kind: "postings", Postings: []sim.P{{Source: "world", Destination: "a", Asset: "USD", Amount: "1"}}})
+		}
+		col := "id"
+		if r.Seed%2 == 1 {
+			col = "timestamp"
+		}
+		_, _ = e.Ctrl("l1").ListTransactions(e.Ctx, common.InitialPaginatedQuery[any]{PageSize: 2, Column: col})
+		_, _ = e.Ctrl("l1").ListLogs(e.Ctx, common.InitialPaginatedQuery[any]{PageSize: 2, Column: map[string]string{"id": "id", "timestamp": "date"}[col]})
+		r.Extra("first_listing_column_of_the_process", col)
+		e.Close()
+	}
 	r.ForEach("walk", n, 0, func(c *core.Case) {
 		rng := c.Rng
 		e := sim.NewEnv(sim.Options{})
@@ -176,7 +217,7 @@ func runC21(r *core.Run) {
 			filter = "not-metadata"
 		}
 		ctx := e.Ctx
-		resource := []string{"transactions", "logs", "accounts", "volumes", "volumes-grouped"}[c.Index%5]
+		resource := []string{"transactions", "logs", "accounts", "volumes", "volumes-grouped", "transactions-by-timestamp"}[c.Index%6]
 		shape := fmt.Sprintf("%s|order=%d|ps=%d|rows=%d|filter=%s", resource, order, pageSize, rows, filter)
 		r.Seen("resources", resource)
 		switch resource {
@@ -210,7 +251,52 @@ func runC21(r *core.Run) {
 					return
 				}
 			}
+			if rng.Intn(3) == 0 {
+				// another sort column served by the same process first (listings must not influence each other)
+				col := []string{"timestamp", "inserted_at", "updated_at"}[rng.Intn(3)]
+				_, _ = e.Ctrl("l1").ListTransactions(ctx, common.InitialPaginatedQuery[any]{PageSize: 3, Order: pointer.For(order), Column: col})
+				r.Count("listings_on_another_column_first", 1)
+			}
 			c21Walk(c, r, "transactions", func(cursor string) (*c21Page, error) {
+				var q common.PaginatedQuery[any] = mk(pageSize)
+				if cursor != "" {
+					var err error
+					q, err = common.UnmarshalCursor[any](cursor)
+					if err != nil {
+						return nil, err
+					}
+				}
+				cur, err := e.Ctrl("l1").ListTransactions(ctx, q)
+				if err != nil {
+					return nil, err
+				}
+				return pageOf(cur, func(t ledger.Transaction) string { return fmt.Sprint(*t.ID) }), nil
+			}, expected, pageSize, shape)
+		case "transactions-by-timestamp":
+			// unique only when no explicit timestamps were submitted: skip histories with ties
+			seenTs := map[string]bool{}
+			unique := true
+			for _, t := range e.C.CommittedTransactions("l1") {
+				k := t.Timestamp.String()
+				if seenTs[k] {
+					unique = false
+				}
+				seenTs[k] = true
+			}
+			if !unique {
+				r.Count("skipped_non_unique_timestamps", 1)
+				return
+			}
+			mk := func(ps int) common.InitialPaginatedQuery[any] {
+				return common.InitialPaginatedQuery[any]{PageSize: uint64(ps), Order: pointer.For(order), Column: "timestamp"}
+			}
+			full, err := e.Ctrl("l1").ListTransactions(ctx, mk(rows+5))
+			if err != nil {
+				c.Violation("C21/listing-failed:transactions-by-timestamp", map[string]any{"error": err.Error(), "shape": shape})
+				return
+			}
+			expected := pageOf(full, func(t ledger.Transaction) string { return fmt.Sprint(*t.ID) }).keys
+			c21Walk(c, r, "transactions-by-timestamp", func(cursor string) (*c21Page, error) {
 				var q common.PaginatedQuery[any] = mk(pageSize)
 				if cursor != "" {
 					var err error
